@@ -25,6 +25,8 @@ MIN_NONTRIVIAL = {"quick": 150, "thorough": 600}
 def cases(tier, sd):
     lmax = 6 if tier == "quick" else 12
     out = [dict(kind='ortho', s=s, lmax=lmax) for s in range(-2, 3)]
+    if tier == "quick":     # high degrees (factorials beyond the int64 range), upper band only
+        out += [dict(kind='ortho', s=s, lmax=12, lmin=9) for s in (-2, 0, 1)]
     for r in range(3 if tier == "quick" else 30):
         out.append(dict(kind='roundtrip', s=[-2, 0, 2, -1, 1][r % 5],
                         lmax=lmax - (r % 3), seed=100 * sd + r))
@@ -34,6 +36,7 @@ def cases(tier, sd):
     for r in range(4 if tier == "quick" else 16):
         l0, m0 = modes[(r + sd) % len(modes)]
         out.append(dict(kind='psi4', l0=l0, m0=m0, seed=100 * sd + r,
+                        amp=[1.0, 1e-9, 1e6, 1e-12][(r + sd) % 4],
                         method=['linear', 'cubic'][r % 2] if tier == "thorough" else 'linear',
                         nfine=64 if tier == "quick" else 80))
     return out
@@ -54,8 +57,10 @@ def run_ortho(spec, res):
     from aurel import maths
     s, lmax = spec['s'], spec['lmax']
     th, ph, w, dphi = gl_grid(lmax)
-    lm = [(l, m) for l in range(abs(s), lmax + 1) for m in range(-l, l + 1)]
-    Y = np.array([maths.sYlm(s, l, m, th, ph).ravel() for l, m in lm])
+    lm = [(l, m) for l in range(max(abs(s), spec.get('lmin', 0)), lmax + 1)
+          for m in range(-l, l + 1)]
+    with np.errstate(all='ignore'):
+        Y = np.array([maths.sYlm(s, l, m, th, ph).ravel() for l, m in lm])
     G = (Y * (w.ravel() * dphi)) @ Y.conj().T
     err = np.abs(G - np.eye(len(lm)))
     res['observations'] += len(lm) ** 2
@@ -136,6 +141,18 @@ def _roundtrip_one(spec, res):
     else:
         for (l, m) in alm:
             res['nontrivial'].append(['roundtrip', s, l, m])
+    # a real-dtype field is an ordinary field: same coefficients as its complex copy
+    fr = np.ascontiguousarray(f.real)
+    a_real = maths.sYlm_coefficients(s, lmax, fr, th, ph, w, dphi)
+    a_cplx = maths.sYlm_coefficients(s, lmax, fr.astype(complex), th, ph, w, dphi)
+    res['observations'] += len(a_cplx)
+    worst = max(abs(a_real[k] - a_cplx[k]) for k in a_cplx)
+    if not worst <= 1e-10:
+        k = max(a_cplx, key=lambda k: abs(a_real[k] - a_cplx[k]))
+        common.add_violation(res, "coefficients of a real-dtype field differ from its complex copy",
+                             {"s": s, "lm": k, "err": float(worst)})
+    else:
+        res['nontrivial'].append(['real-dtype', s, lmax])
 
 
 def run_interp(spec, res):
@@ -225,6 +242,7 @@ def run_psi4(spec, res):
     l0, m0 = spec['l0'], spec['m0']
     centre = tuple(rng.uniform(-0.3, 0.3, 3))
     A = (rng.uniform(0.5, 2.0) * np.exp(1j * rng.uniform(0, 2 * np.pi)))
+    A = A * spec.get('amp', 1.0)        # extraction is linear: the amplitude must not matter
     radii = [float(rng.uniform(1.4, 1.8)), float(rng.uniform(0.8, 1.05)),
              float(rng.uniform(1.1, 1.35))]          # deliberately not ascending
     f = lambda r: r ** 2 * np.exp(-0.5 * r ** 2) + 0.3
@@ -267,7 +285,7 @@ def run_psi4(spec, res):
                 axes0, [fd.xarray, fd.yarray, fd.zarray, fd.cartesian_coords])):
             common.add_violation(res, "Psi4_lm modifies the grid object", {"centre": centre})
             return
-        if any(abs(lm_first[R][k] - lm[R][k]) > 1e-12 for R in radii for k in lm[R]):
+        if any(abs(lm_first[R][k] - lm[R][k]) > 1e-12 * abs(A) for R in radii for k in lm[R]):
             common.add_violation(res, "Psi4_lm differs between two evaluations on the same grid",
                                  {"centre": centre})
             return
@@ -293,7 +311,7 @@ def run_psi4(spec, res):
     elif not (errs[1] < errs[0] / 1.5 or errs[1] < 5e-3):
         common.add_violation(res, "Psi4_lm error does not fall with resolution", info)
     else:
-        res['nontrivial'].append(['psi4', l0, m0, spec['method'],
+        res['nontrivial'].append(['psi4', l0, m0, spec['method'], spec.get('amp', 1.0),
                                   [round(c, 3) for c in centre]])
     res['notes'].append(info)
 
